@@ -512,6 +512,15 @@ def extension_rules(rep, prog):
     rep.check("EXTENSION.raises", len(rs) == 1, fwhere(f2, rs[0].node if rs else None), "pdag_to_dag raises ValueError when no admissible sink is found", "pdag_to_dag has no ValueError exit")
     # index typing
     loops = sorted([(k, v) for k, v in S2.loopinfo.items() if v["func"] == q2 and v["test"] is not None], key=lambda kv: kv[0][1])
+    scan_for = None
+    if len(loops) == 1:
+        # the scan for a sink written as `for i in range(len(P)): ... break` (with the failure in the loop's else suite) instead of a while with a counter
+        lo1 = loops[0][0]
+        fl = [(k, v) for k, v in S2.loopinfo.items() if v["func"] == q2 and v["test"] is None and v["iter"] is not None and len(v["breaks"]) == 1 and
+              v["iter"][0] == "ext" and v["iter"][1] == "range" and len(v["iter"][2]) == 1 and v["iter"][2][0][0] == "ext" and v["iter"][2][0][1] == "len"]
+        if len(fl) == 1:
+            scan_for = fl[0]
+            loops = [loops[0], fl[0]]
     if len(loops) != 2:
         rep.unk("INDEX.pairing", fwhere(f2), "pdag_to_dag is no longer two nested while loops; the index-typing rule does not read this idiom")
         return
@@ -535,11 +544,22 @@ def extension_rules(rep, prog):
     nG, nI, nP = nG[0], nI[0], nP[0]
     # the scan index: the loop-carried integer that starts at 0
     ni = [k for k, v in inner["init"].items() if is_const(v, 0) and not isinstance(v[1], bool)]
-    if len(ni) != 1:
+    if scan_for is None and len(ni) != 1:
         rep.unk("INDEX.pairing", fwhere(f2), "scan index of the sink search not identified")
         return
-    muP, muI, mui = ("mu", li_, nP), ("mu", li_, nI), ("mu", li_, ni[0])
-    nPx, nIx = inner["next"].get(nP), inner["next"].get(nI)
+    muP, muI = ("mu", li_, nP), ("mu", li_, nI)
+    if scan_for is not None:
+        # i runs over range(len(P at the start of the scan)); the matrix and the name list change only on the way out (break)
+        mui = ("elem", inner["iter"])
+        entry_P = inner["init"].get(nP)
+        benv = inner["breaks"][0]
+        ranged = inner["iter"] == ("ext", "range", (("ext", "len", (entry_P,), ()),), ()) and inner["next"].get(nP) == muP and inner["next"].get(nI) == muI
+        cnd = ("$break",)
+        nPx = ("phi", cnd, T(benv.get(nP)), muP) if ranged and nP in benv else None
+        nIx = ("phi", cnd, T(benv.get(nI)), muI) if ranged and nI in benv else None
+    else:
+        mui = ("mu", li_, ni[0])
+        nPx, nIx = inner["next"].get(nP), inner["next"].get(nI)
     allbut = ("ext", "list", (("binop", "-", ("ext", "set", (("ext", "range", (("ext", "len", (muP,), ()),), ()),), ()), ("set", (mui,))),), ())
     FULL = ("slice", ("const", None), ("const", None), ("const", None))
     shr = ("sub", ("sub", muP, ("tuple", (allbut, FULL))), ("tuple", (FULL, allbut)))
